@@ -355,7 +355,8 @@ def onObs (m : Mon) (label : String) (ok : Bool) (membership : Bool) (prev : Opt
           (if p.blind.isBreaking then ["C07.hand-opened-on-a-break-level"] else []) ++
           (if !p.blind.isSet then ["C07.hand-opened-before-blinds-are-set"] else []) ++
           (if o.status == .playing && o.hasGame then [] else ["C07.status-after-open-is-not-playing"])
-        let v12 := if o.gameBlind == some p.blind then [] else ["C12.published-hand-blinds-differ-from-blinds-at-open"]
+        let v12 := (if o.gameBlind == some p.blind then [] else ["C12.published-hand-blinds-differ-from-blinds-at-open"]) ++
+          (if p.blind.isBreaking then ["C12.hand-opened-while-the-level-is-a-break"] else [])
         -- C05: exactly the eligible players, at least two
         let v5 := match o.sm with
           | some sm =>
